@@ -28,7 +28,11 @@ class JSONCookie(SecureCookie):
     @classmethod
     def unquote(cls, value):
         try:
-            value = base64.b64decode(value)
+            # strict: a value is exactly what quote() made. The lenient
+            # default stops at the first padding and skips other
+            # characters, so "v1|key2=v2" (one item, MAC-equivalent to
+            # the items "v1" and "key2=v2") would pass for "v1"
+            value = base64.b64decode(value, validate=True)
             value = cls.serialization_method.loads(value.decode('utf8'))
         except Exception as e:
             raise UnquoteError()
